@@ -275,6 +275,47 @@ func ruleOU5(c *Ctx) {
 				}
 				what = "byte-slices a string"
 				bounds = []ssa.Value{x.Low, x.High}
+			case *ssa.Convert:
+				// a rune narrowed to one byte (sb.WriteByte(byte(r))): only ASCII survives that; anything from U+0080 up
+				// comes out as a raw byte, which is not valid UTF-8
+				dst, okD := x.Type().Underlying().(*types.Basic)
+				src, okS := x.X.Type().Underlying().(*types.Basic)
+				if !okD || !okS || dst.Kind() != types.Uint8 || (src.Kind() != types.Int32 && src.Kind() != types.UntypedRune) {
+					return
+				}
+				if _, isConst := x.X.(*ssa.Const); isConst {
+					return
+				}
+				nSites++
+				k++
+				ascii := edgesWhere(fn, func(a Atom, holds bool) bool {
+					if a.Kind != "cmp" || a.Y == nil {
+						return false
+					}
+					kc, isK := a.Y.(*ssa.Const)
+					if !isK || strip(a.X) != strip(x.X) {
+						return false
+					}
+					kv, okK := constInt(kc)
+					if !okK {
+						return false
+					}
+					switch a.Op {
+					case token.LSS:
+						return holds && kv <= 128
+					case token.LEQ:
+						return holds && kv <= 127
+					case token.GEQ:
+						return !holds && kv <= 128
+					case token.GTR:
+						return !holds && kv <= 127
+					}
+					return false
+				})
+				c.check(len(ascii) > 0 && mustPassEdges(fn, x.Block(), ascii), c.Name(fn), fmt.Sprintf("rune-to-byte#%d", k), c.Pos(x.Pos()),
+					"the rune is narrowed to a byte only where it was compared below utf8.RuneSelf (0x80)",
+					"a human renderer narrows a rune to a single byte without having established that it is ASCII (< 0x80): characters from U+0080 up (é, ü, ß ...) are written as one raw byte and the row is invalid UTF-8")
+				return
 			default:
 				return
 			}
